@@ -19,7 +19,7 @@ ID = 'C06'
 LEVEL = 'model_checking'
 RULE = ('states = (F terms, INC terms, definitions of a and b, exclusions in force, reference ledger); transitions = one real API call: '
         'AddCashFlow(term in 14 spellings incl. bracketed signs, products, quotient, number*name, empty and blank; eqn None|"q+1"|"-q*2+1"|"-(q-1)*2"; is_income T|F), '
-        'AddCashFlowIncomeExclusion(a|b|a*b), AddVariable(a|b, rhs in {"", 0.0, 0., 0, z, 2*z}), an exclusion / income flows registered on a sector with the SAME short code in a second country; oracle after every transition: F == LAG_F + '
+        'AddCashFlowIncomeExclusion(a|b|a*b), AddVariable(a|b, rhs in {"", 0.0, 0., 0, z, 2*z, 0.5, -0.25}), an exclusion / income flows registered on a sector with the SAME short code in a second country; oracle after every transition: F == LAG_F + '
         'signed sum, INC == signed sum of income flows not excluded when registered, flow-variable definition per the rule; the emitted '
         'Model.FinalEquations row of F and INC for states up to depth 2; non-trivial = histories with a repeat, a cancellation, an exclusion '
         'or a pre-existing definition')
@@ -33,7 +33,7 @@ TERMS = ['a', '+a', '-a', 'b', '-b', 'a*b', '-(a*b)', '(-a)', '-(-a)', '2*a', 'a
 NAME_TERMS = {'a': 'a', '+a': 'a', '-a': 'a', 'b': 'b', '-b': 'b', '(-a)': 'a', '-(-a)': 'a', ' - a ': 'a'}
 BARE = {'a': 'a', '+a': 'a', '-a': 'a', 'b': 'b', '-b': 'b', 'a*b': 'a*b', '-(a*b)': 'a*b', '(-a)': 'a', '-(-a)': 'a',
         '2*a': '2*a', 'a/b': 'a/b', ' - a ': 'a'}
-PREDEFS = ['', '0.0', '0.', '0', 'z', '2*z']
+PREDEFS = ['', '0.0', '0.', '0', 'z', '2*z', '0.5', '-0.25']      # (numeric constants below 1 are definitions, not placeholders)
 
 VALS = [
     {'a': Fraction(3), 'b': Fraction(7), 'LAG_F': Fraction(11), 'q': Fraction(13), 'z': Fraction(17)},
